@@ -22,12 +22,17 @@ let mvp_case _ line =
     | "3" -> mvp3_run (nat_of_int fuel) prog (lookup labels) st
     | "4" -> mvp4_run (nat_of_int fuel) prog (lookup labels) st
     | "5" -> mvp5_run (nat_of_int fuel) prog (lookup labels) st
-    | v when String.length v >= 5 && String.sub v 0 4 = "6.0x" ->
-      (* "6.0x<par>", "6.0x<par>o<k>" or "6.0x<par>r<seed>": MVP-6.0 with <par> execute/write units.
+    | v when String.length v >= 5 && (String.sub v 0 4 = "6.0x" || String.sub v 0 4 = "6.1x") ->
+      (* "6.0x<par>", "6.0x<par>o<k>" or "6.0x<par>r<seed>": MVP-6.0 with <par> execute/write units; the same
+         with "6.1x" for MVP-6.1.
          The iteration order of a store's MemoryChanges map is the k-th permutation of its ascending
          keys (perm_of): o<k> = the same k for every store (default 0 = ascending; k mod #keys is the
          index of the first key); r<seed> = a pseudo-random k per (cycle, pc) of the store.
+         MVP-6.1 also ranges over the map pushedRunnersInPreviousCycle (shouldUseForwarding): among the n
+         runners that match, o<k> takes number k mod n (in the order they were pushed), r<seed> a
+         pseudo-random one per cycle.
          The ghost flag of the model is recorded in os_flag and printed as a last field os=0|1. *)
+      let is61 = String.sub v 0 4 = "6.1x" in
       let rest = String.sub v 4 (String.length v - 4) in
       (* a trailing 's': print the state reached when the fuel is exhausted *)
       let snap = rest.[String.length rest - 1] = 's' in
@@ -35,14 +40,17 @@ let mvp_case _ line =
       let split c = match String.index_opt rest c with
         | None -> None
         | Some i -> Some (int_of_string (String.sub rest 0 i), int_of_string (String.sub rest (i + 1) (String.length rest - i - 1))) in
-      let par, ord = match split 'o', split 'r' with
-        | Some (par, k), _ -> par, ord_policy (z_of_int k)
+      let par, ord, pord = match split 'o', split 'r' with
+        | Some (par, k), _ -> par, ord_policy (z_of_int k), pord_policy (z_of_int k)
         | None, Some (par, seed) ->
           par, (fun cycle pc l ->
               let h = Hashtbl.hash (seed, int_of_z cycle, int_of_z pc) in
-              perm_of (z_of_int (h mod 24)) l)
-        | None, None -> int_of_string rest, ord_policy Z0 in
-      (match mvp60_run_snap (nat_of_int par) ord (nat_of_int fuel) prog (lookup labels) st with
+              perm_of (z_of_int (h mod 24)) l),
+          (fun cycle n -> z_of_int (Hashtbl.hash (seed, int_of_z cycle, 77) mod 24))
+        | None, None -> int_of_string rest, ord_policy Z0, pord_policy Z0 in
+      let run = if is61 then mvp61_run_snap (nat_of_int par) ord pord (nat_of_int fuel) prog (lookup labels) st
+        else mvp60_run_snap (nat_of_int par) ord (nat_of_int fuel) prog (lookup labels) st in
+      (match run with
        | Inl (r, os) -> os_flag := (if os then " os=1" else " os=0"); r
        | Inr ((((c, st'), pw), pr), os) ->
          os_flag := (if os then " os=1" else " os=0");
